@@ -518,7 +518,11 @@ func (w *World) Consume() []Arrival {
 		}
 		// removal and recording are one step for concurrent observers
 		w.mu.Lock()
-		os.Remove(p)
+		if os.Remove(p) != nil {
+			// another observer took it in the meantime
+			w.mu.Unlock()
+			return nil
+		}
 		a := Arrival{Target: rel, MD5: md5hex(data), Size: int64(len(data)), Step: w.step, Gen: w.gen, When: time.Now()}
 		// which version is it?
 		for _, vs := range w.versions {
